@@ -1,4 +1,6 @@
-import CJ.Lemmas.Registry
+import CJ.Lemmas.RegistrySpec
+import CJ.Lemmas.RegistryBuckets
+import CJ.Gen.RegistryConsts
 /-!
 # C08 — registrations expire on schedule: never early, never kept past their lifetime
 
@@ -269,5 +271,201 @@ theorem used_only_by_connection (c : Cfg) (s : St) (op : Op) (k : Key) (t t' : T
   | exists_ k0 tr => exact absurd rfl same
   | count p => exact absurd rfl same
   | total => exact absurd rfl same
+
+
+/-! ### what a connection does (not only who may do it) -/
+
+/-- a connection on a tracked registration of an enabled transport DOES raise the used flag and
+leaves the creation time alone — if `markActive` were the identity this would fail -/
+theorem markActive_sets_used (c : Cfg) (s : St) (k : Key) (tr : Nat) (t : TO)
+    (hen : c.enabled.contains tr = true) (ht : s.timeouts[k]? = some t) :
+    (markActive c s k tr).1.timeouts[k]? = some { t with used := true } ∧ (markActive c s k tr).2 = .upd := by
+  have hen' : tr ∈ c.enabled := by simpa using hen
+  constructor
+  · rw [markActive_timeouts_get]; simp [hen', ht]
+  · unfold markActive; simp [hen', ht]
+
+/-- hence a used registration survives every sweep up to the active lifetime: register, connect, and
+any sweep at an age of at most `activeT` keeps it (for every earlier history) -/
+theorem connected_survives (c : Cfg) (s : St) (hr : Reach c s) (k : Key) (tr now : Nat) (t : TO)
+    (hen : c.enabled.contains tr = true) (ht : s.timeouts[k]? = some t) (hage : now - t.time ≤ c.activeT) :
+    tracked (sweep c now (markActive c s k tr).1).1 k := by
+  obtain ⟨ops, rfl⟩ := hr
+  have hr' : Reach c (markActive c (run c ops) k tr).1 :=
+    ⟨ops ++ [.markActive k tr], by simp [run, List.foldl_append, step]⟩
+  have hk : tracked (markActive c (run c ops) k tr).1 k := by
+    unfold tracked
+    rw [markActive_decoys, inv_run c ops init inv_init k]
+    exact contains_of_getElem? _ _ _ ht
+  exact never_early_used c _ hr' now k _ hk (markActive_sets_used c _ k tr t hen ht).1 rfl hage
+
+/-! ### the lifetimes are the property's: 10 minutes and 6 hours (regenerated from the code) -/
+
+/-- the lifetimes a fresh `RegisteredDecoys` uses, and the package defaults the detector is told, are
+exactly 10 minutes and 6 hours -/
+theorem limits_are_the_propertys :
+    CJ.Gen.regUnusedNs = 10 * 60 * 1000000000 ∧ CJ.Gen.regActiveNs = 6 * 3600 * 1000000000 ∧
+    CJ.Gen.regDefaultUnusedNs = CJ.Gen.regUnusedNs ∧ CJ.Gen.regDefaultActiveNs = CJ.Gen.regActiveNs := by
+  decide
+
+/-- the shipped configuration, in nanoseconds / in the harness's seconds -/
+def shippedNs (enabled : List Nat) : Cfg := { unusedT := CJ.Gen.regUnusedNs, activeT := CJ.Gen.regActiveNs, enabled := enabled }
+def shippedS (enabled : List Nat) : Cfg :=
+  { unusedT := CJ.Gen.regUnusedNs / 1000000000, activeT := CJ.Gen.regActiveNs / 1000000000, enabled := enabled }
+
+theorem shipped_limits_ordered (en : List Nat) :
+    (shippedNs en).unusedT ≤ (shippedNs en).activeT ∧ (shippedS en).unusedT ≤ (shippedS en).activeT ∧
+    (shippedS en).unusedT = 600 ∧ (shippedS en).activeT = 21600 := by
+  refine ⟨?_, ?_, ?_, ?_⟩ <;> (simp only [shippedNs, shippedS]; decide)
+
+/-- never early (unused) for the shipped lifetimes: no side condition left -/
+theorem never_early_unused_shipped (en : List Nat) (s : St) (hr : Reach (shippedS en) s) (now : Nat) (k : Key)
+    (t : TO) (hk : tracked s k) (ht : s.timeouts[k]? = some t) (hage : now - t.time ≤ 600) :
+    tracked (sweep (shippedS en) now s).1 k :=
+  never_early_unused (shippedS en) s hr now k t hk ht (shipped_limits_ordered en).2.1
+    (by rw [(shipped_limits_ordered en).2.2.1]; exact hage)
+
+/-! ### refinement: the record the code keeps is the abstract record of the history -/
+
+/-- **Refinement** (`abs (step s op) = specStep (abs s) op`, lifted to histories): after ANY history
+from the empty registry the timeout record of `k` is `spec c ops k` — `none` if `k` is not in a
+lifetime, else the time of the `track` / `register` that started the current lifetime (duplicates do
+not refresh it) and whether a connection was seen since — and `k` is tracked iff that record exists. -/
+theorem refines_spec (c : Cfg) (ops : List Op) (k : Key) :
+    (run c ops).timeouts[k]? = spec c ops k ∧ (tracked (run c ops) k ↔ (spec c ops k).isSome = true) := by
+  refine ⟨run_timeouts_eq_spec c ops k, ?_⟩
+  unfold tracked
+  rw [run_tracked_iff_spec]
+
+/-- `sweep_exact` over histories: after any history and a sweep at `now`, `k` is tracked iff the
+history put it into a lifetime whose abstract record satisfies the age rule. -/
+theorem sweep_exact_spec (c : Cfg) (ops : List Op) (now : Nat) (k : Key) :
+    tracked (sweep c now (run c ops)).1 k ↔ ∃ t, spec c ops k = some t ∧ alive c now t := by
+  rw [sweep_exact c (run c ops) ⟨ops, rfl⟩ now k]
+  constructor
+  · rintro ⟨t, _, ht, ha⟩
+    exact ⟨t, by rw [← run_timeouts_eq_spec]; exact ht, ha⟩
+  · rintro ⟨t, ht, ha⟩
+    refine ⟨t, ?_, by rw [run_timeouts_eq_spec]; exact ht, ha⟩
+    rw [(refines_spec c ops k).2, ht]; rfl
+
+/-- the age in the rule is the time since an operation of the history that tracked / registered this
+very key with an enabled transport -/
+theorem lifetime_starts_at_an_operation (c : Cfg) (ops : List Op) (k : Key) (t : TO)
+    (h : spec c ops k = some t) : ∃ op ∈ ops, startsAt c k t.time op = true :=
+  spec_created_by c k ops t h
+
+/-! ### bounded by the registration rate, as a count -/
+
+def opKey : Op → Key
+  | .track k _ _ => k
+  | .register k _ _ => k
+  | _ => ("", "")
+
+/-- operations that can have started a lifetime which a sweep at `now` keeps: `track` / `register`
+of an enabled transport no more than `activeT` ago -/
+def recentStart (c : Cfg) (now : Nat) : Op → Bool
+  | .track _ tr t => c.enabled.contains tr && decide (now - t ≤ c.activeT)
+  | .register _ tr t => c.enabled.contains tr && decide (now - t ≤ c.activeT)
+  | _ => false
+
+theorem startsAt_recent (c : Cfg) (k : Key) (t now : Nat) (op : Op) (h : startsAt c k t op = true)
+    (hage : now - t ≤ c.activeT) : opKey op = k ∧ recentStart c now op = true := by
+  cases op with
+  | track k' tr t' =>
+    simp only [startsAt, Bool.and_eq_true, decide_eq_true_eq] at h
+    obtain ⟨⟨rfl, hen⟩, rfl⟩ := h
+    exact ⟨rfl, by simp only [recentStart, hen, Bool.true_and, decide_eq_true_eq]; exact hage⟩
+  | register k' tr t' =>
+    simp only [startsAt, Bool.and_eq_true, decide_eq_true_eq] at h
+    obtain ⟨⟨rfl, hen⟩, rfl⟩ := h
+    exact ⟨rfl, by simp only [recentStart, hen, Bool.true_and, decide_eq_true_eq]; exact hage⟩
+  | markActive _ _ => simp [startsAt] at h
+  | collect _ => simp [startsAt] at h
+  | remove _ _ => simp [startsAt] at h
+  | sweep _ => simp [startsAt] at h
+  | lookup _ => simp [startsAt] at h
+  | exists_ _ _ => simp [startsAt] at h
+  | count _ => simp [startsAt] at h
+  | total => simp [startsAt] at h
+
+/-- **Tracked state is bounded by the registration rate**: after any history and a sweep at `now`
+the number of tracked registrations is at most the number of `track` / `register` operations of the
+last `activeT` time units — whatever happened before, however many duplicates, connections, sweeps. -/
+theorem bounded_by_rate_count (c : Cfg) (ops : List Op) (now : Nat) :
+    (sweep c now (run c ops)).1.decoys.size ≤ (ops.filter (recentStart c now)).length := by
+  rw [← HashMap.length_keys, ← List.length_map (f := opKey) (as := ops.filter (recentStart c now))]
+  apply List.Nodup.length_le_of_subset HashMap.nodup_keys
+  intro k hk
+  have hc : (sweep c now (run c ops)).1.decoys.contains k = true :=
+    HashMap.contains_iff_mem.mpr (HashMap.mem_keys.mp hk)
+  obtain ⟨t, ht, ha⟩ := (sweep_exact_spec c ops now k).mp hc
+  obtain ⟨op, hop, hs⟩ := spec_created_by c k ops t ht
+  obtain ⟨hkey, hrec⟩ := startsAt_recent c k t.time now op hs ha.1
+  exact List.mem_map.mpr ⟨op, List.mem_filter.mpr ⟨hop, hrec⟩, hkey⟩
+
+/-- the two maps have the same number of entries in every reachable state (not only the same keys) -/
+theorem sizes_equal (c : Cfg) (s : St) (hr : Reach c s) : s.decoys.size = s.timeouts.size := by
+  have hi := reach_inv hr
+  rw [← HashMap.length_keys, ← HashMap.length_keys]
+  apply Nat.le_antisymm
+  · apply List.Nodup.length_le_of_subset HashMap.nodup_keys
+    intro k hk
+    have := HashMap.contains_iff_mem.mpr (HashMap.mem_keys.mp hk)
+    exact HashMap.mem_keys.mpr (HashMap.contains_iff_mem.mp (by rw [← hi k]; exact this))
+  · apply List.Nodup.length_le_of_subset HashMap.nodup_keys
+    intro k hk
+    have := HashMap.contains_iff_mem.mpr (HashMap.mem_keys.mp hk)
+    exact HashMap.mem_keys.mpr (HashMap.contains_iff_mem.mp (by rw [hi k]; exact this))
+
+/-- … so the timeout records are bounded in the same way -/
+theorem bounded_by_rate_count_timeouts (c : Cfg) (ops : List Op) (now : Nat) :
+    (sweep c now (run c ops)).1.timeouts.size ≤ (ops.filter (recentStart c now)).length := by
+  rw [← sizes_equal c _ ⟨ops ++ [.sweep now], by simp [run, List.foldl_append, step]⟩]
+  exact bounded_by_rate_count c ops now
+
+/-! ### forgotten entirely includes the per-phantom bucket of the nested Go map -/
+
+/-- after any history the stored per-phantom buckets (outer level of `decoys[phantom][identifier]`,
+created by `track`, deleted by `removeRegistration` when the inner map becomes empty) are exactly
+the phantoms that have a tracked registration: no empty bucket is ever left behind, none is missing,
+none is stored twice; and the registry part of the bucketed model is the registry model. -/
+theorem buckets_exact (c : Cfg) (ops : List Op) :
+    (brun c ops).st = run c ops ∧ (brun c ops).buckets.Nodup ∧
+    ∀ p, p ∈ (brun c ops).buckets ↔ ∃ i, tracked (run c ops) (p, i) := by
+  have hb := binv_brun c ops binit binv_init
+  have hs : (brun c ops).st = run c ops := brun_st c ops binit
+  refine ⟨hs, hb.1, ?_⟩
+  intro p
+  rw [hb.2 p, hs]
+  rfl
+
+/-- in particular, once a sweep has expired every registration of a phantom, nothing of that phantom
+is left — not even the empty inner map -/
+theorem no_empty_bucket_after_sweep (c : Cfg) (ops : List Op) (now : Nat) (p : String)
+    (h : ∀ i, ¬ tracked (sweep c now (run c ops)).1 (p, i)) :
+    p ∉ (brun c (ops ++ [.sweep now])).buckets := by
+  intro hp
+  obtain ⟨i, hi⟩ := ((buckets_exact c (ops ++ [.sweep now])).2.2 p).mp hp
+  apply h i
+  have : run c (ops ++ [.sweep now]) = (sweep c now (run c ops)).1 := by
+    simp [run, List.foldl_append, step]
+  rw [this] at hi
+  exact hi
+
+/-- and the number of buckets never exceeds the number of tracked registrations -/
+theorem buckets_bounded (c : Cfg) (ops : List Op) :
+    (brun c ops).buckets.length ≤ (run c ops).decoys.size := by
+  obtain ⟨_, hn, hm⟩ := buckets_exact c ops
+  rw [← HashMap.length_keys, ← List.length_map (f := Prod.fst) (as := (run c ops).decoys.keys)]
+  apply List.Nodup.length_le_of_subset hn
+  intro p hp
+  obtain ⟨i, hi⟩ := (hm p).mp hp
+  exact List.mem_map.mpr ⟨(p, i), HashMap.mem_keys.mpr (HashMap.contains_iff_mem.mp hi), rfl⟩
+
+example : spec cfg0 [.register ("10.0.0.1", "idMin") 0 5, .track ("10.0.0.1", "idMin") 0 60,
+    .markActive ("10.0.0.1", "idMin") 0, .sweep 700] ("10.0.0.1", "idMin") = some ⟨5, true⟩ := by decide
+example : (brun cfg0 hist0).buckets = ["10.0.0.1"] := by
+  simp [brun, hist0, bstep, register, cfg0, binit, creates, addBucket]
 
 end CJ.Props.C08
